@@ -31,7 +31,7 @@ Proof. intros. unfold gen_fns. each_entry. Qed.
 
 (* every entry of the documented naming map is present in the source as an op-bound function *)
 Definition naming_covered : bool :=
-  forallb (fun e => match lookup_fn gen_tables (fst e) (fst (snd e)) with
+  forallb (fun e => match lookup_fn gen_tables (fst (fst e)) (snd (fst e)) with
                     | Some g => match g.(f_bind) with BCustom _ _ _ => true | _ => false end
                     | None => false end) naming.
 Lemma naming_covered_ok : naming_covered = true.
@@ -88,22 +88,26 @@ Fixpoint seq_events (ext op : string) (qs : list qid) : list event :=
 Fixpoint meas_bits (start : nat) (qs : list qid) : list value :=
   match qs with [] => [] | _ :: r => VBit (BMeas start) :: meas_bits (S start) r end.
 
-(* the inner loops, extracted with their exact shape by computation on a generic list *)
-Lemma measure_array_gen : forall qs pre,
-  eval_expr gen_tables 39 [("qubits", qarr qs)] pre (EMapArr "quantum" "measure" "qubits")
-  = Ok (VArr (meas_bits (List.length pre) qs), [("qubits", VUnit)], app pre (seq_events "tket.quantum" "MeasureFree" qs)).
+(* one iteration, for an arbitrary qubit and an arbitrary prefix of events (computed symbolically) *)
+Lemma measure_step : forall q pre,
+  call_with gen_tables (exec_stmts gen_tables 38) "quantum" "measure" [EVar "%elem"] [VQ q] [("%elem", VQ q)] pre
+  = Ok (VBit (BMeas (List.length pre)), [("%elem", VQ q)], app pre [mkEv "tket.quantum" "MeasureFree" [q] []]).
+Proof. intros. vm_compute. reflexivity. Qed.
+
+Lemma measure_loop : forall qs pre,
+  map_loop (fun v evs => call_with gen_tables (exec_stmts gen_tables 38) "quantum" "measure" [EVar "%elem"] [v] [("%elem", v)] evs)
+           (map VQ qs) pre
+  = Ok (meas_bits (List.length pre) qs, app pre (seq_events "tket.quantum" "MeasureFree" qs)).
 Proof.
-  intros qs pre.
-  change (eval_expr gen_tables 39 [("qubits", qarr qs)] pre (EMapArr "quantum" "measure" "qubits"))
-    with (match (fix go (vs : list value) (evs : list event) : outcome (list value * list event) :=
-               match vs with
-               | [] => Ok ([], evs)
-               | v :: r => match eval_expr gen_tables 38 [("%elem", v)] evs (ECall "quantum" "measure" [EVar "%elem"]) with
-                           | Err m' => Err m'
-                           | Ok (y, _, evs1) => match go r evs1 with Err m' => Err m' | Ok (ys, evs2) => Ok (y :: ys, evs2) end
-                           end
-               end) (map VQ qs) pre with
-          | Err m' => Err m'
-          | Ok (ys, evs') => Ok (VArr ys, [("qubits", VUnit)], evs') end).
-  2:{ cbn -[eval_expr]. Fail reflexivity. admit. }
+  induction qs as [|q r IH]; intros pre; simpl map; unfold map_loop; fold map_loop.
+  - simpl. rewrite app_nil_r. reflexivity.
+  - rewrite measure_step. rewrite IH. rewrite app_length. simpl List.length.
+    replace (List.length pre + 1) with (S (List.length pre)) by lia.
+    rewrite <- app_assoc. reflexivity.
+Qed.
+
+Lemma discard_step : forall q pre en,
+  exec_stmts gen_tables 37 (eset en "q" (VQ q)) pre [SExpr (ECall "quantum" "discard" [EVar "q"])]
+  = Ok (VUnit, eset en "q" (VQ q), app pre [mkEv "tket.quantum" "QFree" [q] []]).
+Proof.
 Abort.
